@@ -23,6 +23,16 @@ CHECKS = {
              "Hypotheses: I > 0, nondecreasing timestamps (the property's quantifier). Not covered: the converter constructing the handler with interval 0; per_cpu.rs callers.",
         technique="Coq proof (invariant + conservation by induction over the event history) + differential correspondence run with a verified checker evaluated by vm_compute",
         design="4/C12"),
+    "C04": dict(
+        text="Coq theorem C04_serialized_table: for every history of add_sample / add_sample_same_stack_zero_cpu (and add-only counter) calls, serialization does not "
+             "panic or underflow, the rows read back by running sums are nondecreasing in time and are a permutation of the history's effective entries "
+             "(each keeps time, stack, weight, CPU delta), and total weight/CPU equal the sums added; C04_checker_sound/_accepts_model tie the boolean checker to that statement. "
+             "Tied to fxprof-processed-profile by running the Profile API + serde_json on generated histories and evaluating the checker in Coq. "
+             "The original code violated this (F-C04); repaired by a fix: commit, the witnesses stay in corpus/C04.",
+        note="Trusted: Coq kernel; serde_json read-back in harness h_fxprof; sort_unstable modelled as insertion sort with ties compared as multisets; "
+             "i32 weight sums assumed in range; float ms->ns exact below 2^50.",
+        technique="Coq proof (table invariant by induction over the call history; sorted-permutation serialization) + differential correspondence run with a verified checker evaluated by vm_compute",
+        design="4/C04"),
 }
 
 NOT_YET = "check not built yet in this development (planned: see DESIGN.md section 4); no claim is made"
